@@ -206,7 +206,7 @@ def serializer(ctx, C, tag, ir, fsm, reg, tick, unit, nunits, want_load, src, rd
     si = ir.signals.get(reg)
     ctx.need(si is not None and si.w is not None, 'width of the shift register %s of %s' % (reg, C))
     W = si.w
-    drv = ir.drivers(reg, exact=True)
+    drv = q.merged_drivers(ir, reg)            # a shift written slice by slice (`r[0:9].eq(r[1:]); r[9].eq(0)`) is one write
     ctx.need(drv, 'writers of the shift register %s' % reg)
     ctx.ob('C49.registered', K(what + '-shifter.domain'),
            all(a.domain == fsm.domain for a in drv), drv[0].loc,
@@ -519,10 +519,103 @@ def check_multibyte(ctx, bw, d):
     return ir
 
 
+def frame_exact(ctx, d):
+    """Semantic decision for one concrete divisor: the one-cycle relation of UARTTransmitter (cone of influence of tx and
+    stream.ready) is composed with a reference monitor of the line -- the frame {0, b0..b7, 1} of the accepted byte, each
+    bit `d` cycles, at most one accepted byte waiting, mark (1) otherwise -- and every reachable product state is explored
+    under stream.valid in {0, 1} and ALL 256 payload values.  In every reachable state tx must be what the monitor expects
+    (a frame may start late: mark is tolerated in front of a start bit) and no byte may be accepted while another one is
+    still waiting to be framed.  Independent of how the frame length is tracked (bit counter, sentinel, ...)."""
+    from ..num import Stepper, NoEval
+    from ..ir import AnalysisError
+    C = 'UARTTransmitter'
+    ir = ctx.ir(C, MOD, divisor=d)
+    TX, RDY, VLD, PAY = 'self.tx', 'self.stream.ready', 'self.stream.valid', 'self.stream.payload'
+    try:
+        st = Stepper(ir)
+        st.restrict({TX, RDY})
+    except AnalysisError as ex:
+        ctx.need(False, 'one-cycle semantics of UARTTransmitter (%s)' % ex)
+    fkeys = ['$fsm%s' % f.id for f in ir.fsms]
+    names = list(st.regs) + fkeys
+    regs0 = tuple(st.inits.get(r, 0) for r in st.regs) + tuple(f.init for f in ir.fsms)
+    L = 10 * d
+
+    def bit(byte, pos):
+        k = pos // d
+        return 0 if k == 0 else 1 if k == 9 else (byte >> (k - 1)) & 1
+    # monitor: (byte being framed or None, position 0..L-1 of the NEXT line cycle, waiting byte or None)
+    start = (regs0, (None, 0, None))
+    seen, work, bad, n_eval, accepted = {start}, [start], None, 0, 0
+
+    def step(regs, valid, pay):
+        env = dict(zip(names, regs))
+        env.update({VLD: valid, PAY: pay})
+        return st.step(env)
+    while work and bad is None:
+        regs, (cur, pos, wait) = work.pop()
+        try:
+            c0, _ = step(regs, 1, 0)
+            c1, _ = step(regs, 1, 255)
+            n_eval += 2
+            pays = range(256) if (c0.get(RDY) or c1.get(RDY)) else (0,)
+            cases = [(0, 0)] + [(1, p_) for p_ in pays]
+            for valid, pay in cases:
+                envc, nxt = step(regs, valid, pay)
+                n_eval += 1
+                tx = envc.get(TX, ir.signals[TX].init or 0) & 1
+                b, p_, w_ = cur, pos, wait
+                if b is None and w_ is not None:
+                    b, p_, w_ = w_, 0, None
+                if b is None:
+                    exp = 1
+                elif p_ == 0 and tx == 1:
+                    exp = 1                                  # the frame starts a little later: still a well-formed line
+                else:
+                    exp = bit(b, p_)
+                    p_ += 1
+                    if p_ == L:
+                        b, p_ = None, 0
+                if tx != exp and bad is None:
+                    bad = 'tx is %d where the line must be %d: %s (registers %s, valid=%d)' % (
+                        tx, exp, 'mark between frames' if cur is None and wait is None else
+                        'cycle %d of the frame of byte 0x%02x (bit period %d, %d cycles each)' % (pos, cur if cur is not None else wait, pos // d, d),
+                        dict(zip(names, regs)), valid)
+                    break
+                if valid and envc.get(RDY):
+                    accepted += 1
+                    if w_ is not None and bad is None:
+                        bad = 'byte 0x%02x is accepted while byte 0x%02x is still waiting to be framed (registers %s)' % (
+                            pay, w_, dict(zip(names, regs)))
+                        break
+                    w_ = pay
+                nx = (tuple(nxt[k] for k in names), (b, p_, w_))
+                if nx not in seen:
+                    seen.add(nx)
+                    work.append(nx)
+        except NoEval as ex:
+            ctx.need(False, 'UARTTransmitter evaluates under stream.valid / stream.payload alone (%s)' % ex)
+    ctx.need(bad is not None or accepted >= 256, 'product exploration of UARTTransmitter accepts bytes')
+    txd = ir.drivers(TX, exact=True)
+    ctx.ob('C49.frame-exact', '%s.line[div=%d]' % (C, d), bad is None, txd[0].loc if txd else None,
+           'the line carries exactly the 8N1 frame of every accepted byte, %d cycles per bit, for all 256 byte values and every '
+           'hand-over timing: %s  [%d product states, %d evaluations]' % (d, bad, len(seen), n_eval))
+    return bad is None
+
+
 def run(ctx):
-    check_uart(ctx, None)
-    for d in (1, 2, 5, 16):
-        check_uart(ctx, d)
+    from ..ir import AnalysisError
+    sem_ok = all([frame_exact(ctx, d) for d in ((2,) if ctx.tier != 'thorough' else (1, 2, 3))])
+    try:
+        check_uart(ctx, None)
+        for d in (1, 2, 5, 16):
+            check_uart(ctx, d)
+    except AnalysisError as ex:
+        # the frame-length bookkeeping has a shape the structural obligations do not recognise: the semantic decision
+        # above stands (violation or not); the symbolic-divisor diagnostics are skipped, not failed
+        ctx.note('C49: structural obligations of UARTTransmitter skipped (%s); decided by C49.frame-exact (%s)' % (
+            ex, 'held' if sem_ok else 'violated'))
+        ctx.floor_override = 40            # the semantic obligations and the multi-byte part remain
     check_multibyte(ctx, 4, None)
     check_multibyte(ctx, 1, 4)
     check_multibyte(ctx, 2, 3)
